@@ -3,8 +3,12 @@ module verifharness
 go 1.22
 
 require (
+	bazil.org/fuse v0.0.0-20230120002735-62a210ff1fd5
 	github.com/jech/storrent v0.0.0
 	github.com/zeebo/bencode v1.0.0
+	golang.org/x/net v0.28.0
 )
+
+require golang.org/x/sys v0.24.0 // indirect
 
 replace github.com/jech/storrent => /repo
